@@ -73,6 +73,11 @@ def ev_call(ex, st, e, cx, k):
             if f.value.id == 'int' and f.attr == 'from_bytes':
                 return builtin_function(ex, st, 'int.from_bytes', e, cx, k)
 
+        # os.path.<fn>(...)
+        if isinstance(f.value, ast.Attribute) and isinstance(f.value.value, ast.Name) and f.value.value.id == 'os' \
+                and f.value.attr == 'path':
+            return module_function(ex, st, 'os.path*', f.attr, e, cx, k)
+
         def with_obj(st, obj):
             return ex.ev_list(st, list(e.args) + list(kws.values()), cx,
                               lambda s, vs: method_call(ex, s, obj, f.attr, vs[:len(e.args)],
